@@ -18,7 +18,6 @@ import (
 	"oss.terrastruct.com/d2/lib/textmeasure"
 )
 
-const c28KFCaps = "C28-capslock-before-user-transform"
 
 var c28Ruler *textmeasure.Ruler
 
@@ -59,9 +58,8 @@ func (it c28LItem) coq() string {
 	return "(" + rec + ", " + tb + ")"
 }
 
-// the input matches the known finding iff some element has a valid user transform that does not
-// commute with the theme's ToUpper at its label (a decidable predicate on the input alone)
-func (it c28LItem) kf() bool {
+// c28NonCommuting: inputs on which the defect fixed by e14844563 showed (kept for the distribution report)
+func (it c28LItem) nonCommuting() bool {
 	if it.tt == nil || it.label == "" {
 		return false
 	}
@@ -232,8 +230,8 @@ func c28LabelCase(src, class string) (Case, bool) {
 			nset++
 		}
 		ji = append(ji, map[string]any{"edge": it.edge, "label": it.label, "shape": it.shape, "text-transform": tt})
-		if it.kf() {
-			c.KF = []string{c28KFCaps}
+		if it.nonCommuting() && class != "label-corpus" {
+			c.Class = "label-noncommuting"
 		}
 	}
 	type grp struct {
